@@ -505,6 +505,21 @@ pub fn generate(s: &mut Session, thorough: bool) -> bool {
     for n in 0..=64usize {
         add(s, "length", &vec![0u8; n]);
     }
+    // lengths that equal a valid length modulo 2^8 / 2^16: zeros appended, and zeros inserted between
+    // the payload and its CRC word
+    for l in [1usize, 4, 10] {
+        let f = random_fields(&mut rng, &ids, l);
+        let base = encode(&f);
+        for extra in [256usize, 65536, 2 * 65536] {
+            let mut b = base.clone();
+            b.resize(base.len() + extra, 0);
+            add(s, "length-wrap", &b);
+            let mut c = base[..base.len() - 4].to_vec();
+            c.extend(std::iter::repeat(0u8).take(extra));
+            c.extend(&base[base.len() - 4..]);
+            add(s, "length-wrap", &c);
+        }
+    }
     // every slice length 20..=48 with a plausible header, a declared length in (and next to)
     // the window len-27..=len-24, zero padding and both CRC words recomputed: only lengths
     // that are multiples of 4 and >= 28 may be accepted
